@@ -42,6 +42,24 @@
 //     construction, dumped sorted.
 //   * QXmppTuneItem: rating 1..10 (the setter rejects the rest); QXmppGeolocItem: lat -90..90, lon -180..180 (ditto).
 //
+// FINDINGS of this table (the generators are left as they are; each is reported with the library lines responsible):
+//   F1 QXmppResultSetReply::parse() reads <count/> without an ok-check: an absent count (-1) comes back as 0
+//      (QXmppResultSet.cpp:234).  Seen through QXmppMamResultIq and PubSubIq<T>::itemsContinuation too.
+//   F2 QXmppMamQueryIq writes the attribute "queryid" (QXmppMamIq.cpp:153) and reads "queryId" (:134): queryId is lost.
+//   F3 QXmppGeolocItem writes doubles with QString::number(double) = 6 significant digits (QXmppGeolocItem.cpp:187):
+//      accuracy, latitude and longitude lose everything beyond that.
+//   F4 QXmppDataFormBase::serializeDatetime() writes Qt::ISODate, i.e. no milliseconds (QXmppDataFormBase.cpp:139):
+//      QXmppPubSubSubscribeOptions::expire, QXmppPubSubMetadata::creationDate, QXmppMixConfigItem::channelDeletion.
+//   F5 unknownFields() ("all additional fields to be serialized") are never written: the serializeForm() overrides of
+//      QXmppPubSubSubscribeOptions, QXmppPubSubNodeConfig, QXmppPubSubSubAuthorization and QXmppPubSubMetadata do not call
+//      QXmppExtensibleDataFormBase::serializeForm() (QXmppDataFormBase.cpp:204).
+//   F6 PubSubIq with query type Subscription: the <options/> form is parsed (QXmppPubSubIq.cpp:435-441) but the code that
+//      writes it sits in the else-branch of "queryType == Subscription" (:534-536, dead case label at :624): dataForm is lost.
+// Observations (outside the generated domain, not counted as findings):
+//   * QXmppPubSubSubscription::parse() reads node/subid only in the pubsub and pubsub#event namespaces although XEP-0060
+//     8.8.1 shows subid in pubsub#owner subscriptions; toXml() writes them in any context.
+//   * QXmppMixConfigItem::Nodes: Configuration/Messages are silently dropped and a single avatar flag comes back as both.
+//
 // Not in this table:
 //   QXmppAvatarMetadataItem / QXmppAvatarDataItem   do not exist in this version of the library.
 //   QXmppPubSubPublishOptions                        fromDataForm() is declared but defined nowhere (serialise-only).
